@@ -20,7 +20,7 @@ RULE = ("the harness owns the process / hash-seed dimension: a pool of long-live
         "ships it to all workers: (a) generated file-based scenarios rich in ties and shared membership (vehicles stacked on one site, requests with "
         "equal value / origin / timestamp, one-plug stations reached in the same step, stations with 2-3 on-shift plug types, co-located bases, "
         "vehicles in several fleets, human and autonomous drivers, both charging search types, all network kinds, built-in generators plus a "
-        "deterministic scripted controller); (b) the shipped Denver scenarios. Every worker steps with hive_cosim.crank(rp, 1) and returns per step a "
+        "deterministic scripted controller; in half of the scenarios the Dispatcher is re-injected every 10 steps through runner_payload_ops.update_instruction_generator, as co-simulation controllers do); (b) the shipped Denver scenarios. Every worker steps with hive_cosim.crank(rp, 1) and returns per step a "
         "digest of the canonical state (instance ids stripped, set-valued fields sorted) and of the sorted multiset of that step's reports (session ids "
         "stripped, membership lists sorted), and the summary statistics at the end; all workers must agree exactly; on disagreement the first "
         "differing step is re-run with full canonical states to name the differing entity. non-trivial = scenario in which a worker saw an "
@@ -125,9 +125,9 @@ def check_case(case: Dict[str, Any], pool: Optional[Pool] = None, seeds: Optiona
         pool = Pool(seeds)
     try:
         if case.get("shipped"):
-            job = {"kind": "shipped", "name": case["shipped"], "steps": case["steps"]}
+            job = {"kind": "shipped", "name": case["shipped"], "steps": case["steps"], "reinject": case.get("reinject", False)}
         else:
-            job = {"kind": "spec", "world": case["world"], "steps": case["steps"], "det": case.get("det", False)}
+            job = {"kind": "spec", "world": case["world"], "steps": case["steps"], "det": case.get("det", False), "reinject": case.get("reinject", False)}
         results = pool.run(job)
         out = _compare(job, results, seeds, pool)
         for v in out:
@@ -156,9 +156,9 @@ def st_case(draw) -> Dict[str, Any]:
         a, b = w["vehicles"][0]["site"], w["vehicles"][-1]["site"]
         for k, v in enumerate(w["vehicles"]):
             v["site"] = a if k % 3 else b
-        return {"world": w, "steps": draw(st.integers(120, 200)), "det": False}
+        return {"world": w, "steps": draw(st.integers(120, 200)), "det": False, "reinject": draw(st.booleans())}
     w = draw(st_world(PROFILE))
-    return {"world": w, "steps": draw(st.integers(60, 150)), "det": draw(st.booleans())}
+    return {"world": w, "steps": draw(st.integers(60, 150)), "det": draw(st.booleans()), "reinject": draw(st.booleans())}
 
 
 def nshards(tier):
@@ -180,7 +180,7 @@ def shard(tier, seed, idx) -> ShardResult:
         if idx == 0:  # shipped scenarios
             steps = 240 if tier == "quick" else 1440
             for name in SHIPPED:
-                case = {"shipped": name, "steps": steps, "hash_seeds": seeds, "kind": "shipped"}
+                case = {"shipped": name, "steps": steps, "hash_seeds": seeds, "kind": "shipped", "reinject": name.endswith("demo.yaml")}
                 vs, flags, stats = check_case(case, pool, seeds)
                 res.stats["evaluations"] += 1
                 res.stats["shipped_scenarios"] += 1
